@@ -95,6 +95,11 @@ func needOK(f factSet, need string) bool {
 			if f[alt] {
 				return true
 			}
+			// below the length of a slice that was made with more elements
+			// than the index
+			if strings.HasPrefix(alt, "ltlen:") && f["ltmade:"+alt[6:]] {
+				return true
+			}
 		}
 	}
 	return false
@@ -121,13 +126,127 @@ var sinkAudit = map[string]string{
 	"eval/vals.convertStringIndex slice of *extract(call:ConvertListIndex).Lower missing=ge0,lelen:param:s|ltlen:param:s": "ConvertListIndex(rawIndex, len(s)) returned without error, so adjustAndCheckIndex bounded Lower by [0, len(s)]",
 	"eval/vals.convertStringIndex slice of *extract(call:ConvertListIndex).Upper missing=ge0,lelen:param:s|ltlen:param:s": "ConvertListIndex(rawIndex, len(s)) returned without error, so adjustAndCheckIndex bounded Upper by [Lower, len(s)]",
 	"eval/vals.hasKeyViaIterateKeys$ ifacecmp of *freevar:*any missing=never": "the keys handed out by every IterateKeys implementation (Ns, ui.Text, *ui.Segment, complexItem) are strings or ints; == panics only when both operands hold the same uncomparable type",
-	"eval.div lib:(*math/big.Rat).Quo of *extract(assert(call:UnifyNums))[:][] missing=ne0": "every divisor rawNums[1:] was compared with exact 0 in the loop at the top of div; UnifyNums preserves zero-ness",
 	"eval.growAccess index of param:int missing=ltlen:*param:s":           "grow idiom: when i >= len(*s) the slice was just replaced by make([]T, i+1), so i < len(*s) on both branches",
-	"eval.randIntBigInt$ lib:(*math/big.Int).Rand of *freevar:**big.Int missing=gt0": "randIntBigInt returns early unless high > low; Rand is called with high when low is 0 and with high-low otherwise, both positive",
 	"eval.randint assert *big.Int of *param:[]vals.Num[] missing=never":   "checkExactIntArg accepted the argument, so it is int or *big.Int, and the int case was just excluded by the comma-ok assertion",
 	"eval.rem lib:(*math/big.Int).Rem of call:PromoteToBigInt missing=ne0": "b was compared with exact 0 (b == 0 returns ErrDivideByZero) before PromoteToBigInt(b)",
 	"eval/vals.UnifyNums assert int of *param:[]vals.Num[] missing=never": "typ == Int is the maximum of getNumType over all elements, so every element is an int",
-	"mods/math.pow lib:(*math/big.Rat).SetFrac of call:Exp missing=ne0":   "the denominator is base.Denom()^exp; Rat.Denom() is never zero and a power of a non-zero integer is non-zero",
+}
+
+// Audit entries that stand for a whole function rather than one expression:
+// the key names the function the sink belongs to (a helper called from one
+// function only counts as part of that function, closures as part of their
+// parent) and the class of the operation, so that moving the operation into a
+// helper or spelling it with a sibling method keeps the entry. An entry with
+// a condition is granted only while the structural fact its reason rests on
+// is found in the code.
+type classAudit struct {
+	reason string
+	cond   func(p *core.Program, root *ssa.Function) (bool, string)
+}
+
+var sinkClassAudit = map[string]classAudit{
+	"eval.div lib:big.Rat-div missing=ne0": {
+		reason: "every argument of div was compared with exact 0 before the numbers are unified (the divisors rawNums[1:] in the loop at the top, the dividend right after it); UnifyNums preserves zero-ness, and a normalised big number is never zero",
+		cond:   divGuardsEveryArgument,
+	},
+	"eval.randIntBigInt lib:(*math/big.Int).Rand missing=gt0": {
+		reason: "randIntBigInt returns early unless high > low; Rand is called with high when low is 0 and with high-low otherwise, both positive",
+	},
+}
+
+// sinkClass groups sibling operations that share one precondition.
+func sinkClass(kind string) string {
+	switch kind {
+	case "lib:(*math/big.Rat).Quo", "lib:(*math/big.Rat).Inv":
+		return "lib:big.Rat-div"
+	}
+	return kind
+}
+
+// divGuardsEveryArgument: in root (eval.div), before vals.UnifyNums is called
+// on the argument list, (a) a range loop over args[1:] returns when an element
+// equals exact 0 and (b) args[0] is compared with exact 0 and the call lies
+// on the unequal side.
+func divGuardsEveryArgument(p *core.Program, root *ssa.Function) (bool, string) {
+	var unify *ssa.Call
+	core.Instrs(root, func(ins ssa.Instruction) {
+		if c, ok := ins.(*ssa.Call); ok {
+			if callee := c.Call.StaticCallee(); callee != nil && core.IsFunc(callee, pkgVals, "", "UnifyNums") {
+				unify = c
+			}
+		}
+	})
+	if unify == nil || len(root.Params) == 0 {
+		return false, "no call of vals.UnifyNums in " + core.FnKey(root)
+	}
+	var args ssa.Value = root.Params[len(root.Params)-1]
+	isArgs := func(v ssa.Value) bool { return v == args || resolveVal(v) == resolveVal(args) }
+	if !isArgs(unify.Call.Args[0]) {
+		return false, "vals.UnifyNums is not applied to the argument list itself"
+	}
+	isZeroNum := func(v ssa.Value) bool {
+		mi, ok := v.(*ssa.MakeInterface)
+		if !ok {
+			return false
+		}
+		n, isC := constInt(mi.X)
+		return isC && n == 0
+	}
+	// (a) the divisors
+	var rest ssa.Value
+	core.Instrs(root, func(ins ssa.Instruction) {
+		if sl, ok := ins.(*ssa.Slice); ok && isArgs(sl.X) && sl.High == nil && sl.Max == nil {
+			if one, isC := constInt(sl.Low); isC && one == 1 && elemsComparedBefore(sl, unify, isZeroNum) {
+				rest = sl
+			}
+		}
+	})
+	if rest == nil {
+		return false, "no loop that returns when one of args[1:] equals exact 0 is finished before vals.UnifyNums is called"
+	}
+	// (b) the dividend
+	first := false
+	for _, b := range root.Blocks {
+		if len(b.Instrs) == 0 {
+			continue
+		}
+		iff, ok := b.Instrs[len(b.Instrs)-1].(*ssa.If)
+		if !ok {
+			continue
+		}
+		cmp, ok := iff.Cond.(*ssa.BinOp)
+		if !ok || (cmp.Op != token.EQL && cmp.Op != token.NEQ) {
+			continue
+		}
+		var other ssa.Value
+		switch {
+		case isZeroNum(cmp.Y):
+			other = cmp.X
+		case isZeroNum(cmp.X):
+			other = cmp.Y
+		default:
+			continue
+		}
+		ld, ok := resolveVal(other).(*ssa.UnOp)
+		if !ok || ld.Op != token.MUL {
+			continue
+		}
+		ia, ok := ld.X.(*ssa.IndexAddr)
+		if !ok || !isArgs(ia.X) {
+			continue
+		}
+		if zero, isC := constInt(ia.Index); !isC || zero != 0 {
+			continue
+		}
+		edge := core.EdgeTo(b, unify.Block())
+		if (cmp.Op == token.EQL && edge == 1) || (cmp.Op == token.NEQ && edge == 0) {
+			first = true
+		}
+	}
+	if !first {
+		return false, "vals.UnifyNums is reached although args[0] was not found to differ from exact 0"
+	}
+	return true, ""
 }
 
 type panicEngine struct {
@@ -326,6 +445,27 @@ func (e *panicEngine) run(r *core.Report, rule string, filter func(sink) bool) {
 		if why, ok := sinkAudit[construct+" missing="+strings.Join(missing, ",")]; ok {
 			r.Audit(rule, construct, pos, why+" (not established locally: "+strings.Join(missing, ",")+")")
 			continue
+		}
+		var ca classAudit
+		var root *ssa.Function
+		for _, f := range uniqueCallerChain(e.p, s.ins.Parent()) {
+			if a, ok := sinkClassAudit[core.FnKey(f)+" "+sinkClass(s.kind)+" missing="+strings.Join(missing, ",")]; ok {
+				ca, root = a, f
+				break
+			}
+		}
+		if root != nil {
+			if ca.cond == nil {
+				r.Audit(rule, construct, pos, ca.reason+" (not established locally: "+strings.Join(missing, ",")+")")
+				continue
+			}
+			if held, whyNot := ca.cond(e.p, root); held {
+				r.Audit(rule, construct, pos, ca.reason+" (the comparisons were found in the code; not established locally: "+strings.Join(missing, ",")+")")
+				continue
+			} else {
+				r.Bad(rule, construct, pos, fmt.Sprintf("script-controlled value reaches a panicking operation unguarded: %s; %s (`/ 0` or `/ 1 0` would crash the interpreter with a Go division by zero instead of raising an exception)", s.what, whyNot))
+				continue
+			}
 		}
 		origin := e.t.tainted[s.operand]
 		onesided := ""
